@@ -304,6 +304,36 @@ func invWorld(w *World) bool {
 		}
 	}
 	ok = ok && total == s.entityPool.Len()
+	// I-graph: nodes have pairwise distinct masks; an edge for component c connects two nodes whose
+	// masks differ in exactly bit c; archetypes and nodes reference each other with equal masks
+	g := &s.graph
+	for ni := range g.nodes {
+		n := &g.nodes[ni]
+		ok = ok && n.id == nodeID(ni)
+		for nj := ni + 1; nj < len(g.nodes); nj++ {
+			ok = ok && !n.mask.Equals(&g.nodes[nj].mask)
+		}
+		if n.archetype != maxArchetypeID {
+			ok = ok && int(n.archetype) < len(s.archetypes) && s.archetypes[n.archetype].node == n.id &&
+				s.archetypes[n.archetype].mask.Equals(&n.mask)
+		}
+		for c := 0; c < len(n.neighbors.data) && c < maskTotalBits; c++ {
+			if !n.neighbors.used.Get(uint8(c)) {
+				continue
+			}
+			to := n.neighbors.data[c]
+			ok = ok && int(to) < len(g.nodes)
+			if int(to) < len(g.nodes) {
+				want := n.mask
+				if want.Get(uint8(c)) {
+					want.Clear(uint8(c))
+				} else {
+					want.Set(uint8(c))
+				}
+				ok = ok && g.nodes[to].mask.Equals(&want)
+			}
+		}
+	}
 	// I-arch
 	for ai := range s.archetypes {
 		a := &s.archetypes[ai]
